@@ -39,7 +39,7 @@ fn o14_5_arc_new_normalises() {
     assert!(plain.arcs_to(a, b), "O14.5 an arc arcs_to its own construction points");
 }
 
-//@ harness: o6_1_arc_predicates_shift props=C06,C05 tier=quick obl=O6.1 timeout=1800 mem=12
+//@ harness: o6_1_arc_predicates_shift props=C06,C05 tier=quick obl=O6.1 timeout=800 mem=12
 //@ desc: quarter arcs as the corner characters emit them (eighth-unit lattice endpoints in a 3x3-cell window, radius 0.25..2 in eighths) evaluated at the origin and shifted by (k <= 64, n <= 64) cells: is_touching, has_endpoint, arcs_to give identical answers (is_aabb_right_angle_arc on ARBITRARY arcs is not asserted here: CBMC's sqrt is not bit-identical to libm's, a probe produced counterexamples that did not replay natively; the corner arcs of the tables are decided separately in o5_3_corner_arcs_are_right_angle)
 //@ encodes: Arc::is_touching, Arc::has_endpoint, Arc::arcs_to, Arc::absolute_position
 #[kani::proof]
@@ -76,7 +76,7 @@ fn arc_shift(max_k: i32, max_n: i32) {
     kani::cover!(a1.is_touching(&a2), "touching arcs are explored");
 }
 
-//@ harness: o5_3_corner_arcs_are_right_angle props=C05,C06 tier=quick obl=O5.3 timeout=1800 mem=12
+//@ harness: o5_3_corner_arcs_are_right_angle props=C05,C06 tier=quick obl=O5.3 timeout=800 mem=12
 //@ desc: the four quarter arcs a rounded box corner yields (radius rh in {0.5,1} = horizontal half-extent, vertical extent 2*rh... i.e. arc between (x, y+r) and (x+r, y) style points as . , ' ` emit them: endpoints differ by (+-0.5, +-0.5) with radius 0.5) at any cell offset <= 400x200 are recognised by is_aabb_right_angle_arc for every orientation and construction order; powf stubbed by exact square
 //@ encodes: Arc::is_aabb_right_angle_arc, Arc::center, Arc::new
 #[kani::proof]
@@ -102,7 +102,7 @@ fn o5_3_corner_arcs_are_right_angle() {
     assert!(arc.is_aabb_right_angle_arc(), "O5.3 a quarter arc of a rounded corner is a right-angle arc at every position");
 }
 
-//@ harness: o1_5_right_angle_arc_total props=C01,C05 tier=quick obl=O1.5 timeout=900 mem=10
+//@ harness: o1_5_right_angle_arc_total props=C01,C05 tier=quick obl=O1.5 timeout=800 mem=10
 //@ desc: Arc::is_aabb_right_angle_arc and Arc::center never panic for ANY lattice arc (eighth-unit endpoints in a 3x3-cell window at a cell offset <= 64x64, radius 0.125..4 in eighths), including arcs whose chord is longer than their diameter (centre = NaN) and zero-length chords; powf stubbed by exact square
 //@ encodes: Arc::is_aabb_right_angle_arc, Arc::center, Arc::new
 #[kani::proof]
